@@ -7,6 +7,9 @@ import (
 	"fmt"
 	"os"
 	"strings"
+	"time"
+
+	"verifharness/cmd/C03/inp"
 
 	"git.sr.ht/~rockorager/vaxis"
 	"github.com/mattn/go-runewidth"
@@ -86,6 +89,148 @@ func one(r *hx.Run, adv uint32, initCol int, version string) error {
 	return nil
 }
 
+// ---- start-up replay: arbitrary reply streams through the real vaxis.New ----
+
+// vocabulary: every reply shape Vaxis solicits at start-up (positive, negative, loose, malformed,
+// truncated + CAN), unsolicited reports, and user input typed during start-up
+var vocab = []string{
+	"\x1b[?2026;2$y", "\x1b[?2026;1$y", "\x1b[?2026;0$y", "\x1b[?2026;4$y", "\x1b[?2026;3$y", "\x1b[?2027;3$y", "\x1b[?2027;1$y", "\x1b[?2027;0$y",
+	"\x1b[?2031;2$y", "\x1b[?2031;0$y", "\x1b[?2031;3$y", "\x1b[2026;1y", "\x1b[?2026$y", "\x1b[?9999;1$y",
+	"\x1b[?0u", "\x1b[?31u", "\x1b[97u", "\x1b[?u",
+	"\x1b_Gi=1;OK\x1b\\", "\x1b_Gi=1;ENOTSUP\x1b\\", "\x1b_Xfoo\x1b\\", "\x1b_\x1b\\",
+	"\x1b[?2;0;800;600S", "\x1b[?2;3;0S", "\x1b[?2;0S", "\x1b[?1;0;256S", "\x1b[2;0;1S",
+	"\x1b[4;600;800t", "\x1b[8;24;80t", "\x1b[48;24;80;600;800t", "\x1b[48;24;80t", "\x1b[8;24t", "\x1b[4;600;800t", "\x1b[8;24;80t", "\x1b[9;1;1t",
+	"\x1bP1+r524742=38\x1b\\", "\x1bP0+r524742\x1b\\", "\x1bP1+r536D756C78=5C455B343A25703125646D\x1b\\", "\x1bP0+r536D756C78\x1b\\",
+	"\x1bP1+r536d756c78\x1b\\", "\x1bP+r524742\x1b\\", "\x1bP1+r524742\x1b\\", "\x1bP1+r=\x1b\\", "\x1bP2+r524742=1\x1b\\",
+	"\x1bP!|7E565445\x1b\\", "\x1bP!|00000000\x1b\\", "\x1bP!|\x1b\\",
+	"\x1bP>|kitty 0.31\x1b\\", "\x1bP>|tmux 3.4\x1b\\", "\x1bP>|tmux 3.4a\x1b\\", "\x1bP>|foot(1.2)\x1b\\", "\x1bP>|kit\x1b\\", "\x1bP>|kitty\x1b\\", "\x1bP>|\x1b\\",
+	"\x1b]4;1;rgb:ffff/0000/0000\x1b\\", "\x1b]10;rgb:1/2/3\x1b\\", "\x1b]11;rgb:0/0/0\x07", "\x1b]11;?\x1b\\", "\x1b]4\x1b\\", "\x1b]104\x1b\\", "\x1b]110\x1b\\",
+	"\x1b]52;c;aGk=\x1b\\", "\x1b]52;c\x1b\\", "\x1b]1;x\x1b\\", "\x1b]\x1b\\",
+	"\x1bP1$r2 q\x1b\\", "\x1bP1$r q\x1b\\", "\x1b[?997;1n", "\x1b[?997n",
+	"a", "\x1b[A", "\x1b[1;5B", "\x1b[<0;3;4M", "\x1b[<35;1;1m", "\x1b[I", "\x1b[O", "\x1b[200~xy\x1b[201~", "\x1bOP", "\t", "é",
+	"\x1b[?2026;2$\x18", "\x1bP1+r5247\x18", "\x1b]11;rgb\x18", "\x1b[?62;4\x18",
+}
+
+var vocab176 = []string{"\x1b]176;app\x1b\\", "\x1b]176;a;b\x1b\\", "\x1b]176\x1b\\", "\x1b]176;\x1b\\", "\x1b]1760;x\x1b\\"}
+
+var cprs = []string{"\x1b[1;2R", "\x1b[1;1R", "\x1b[7;2R", "\x1b[1;3R", "\x1b[2R", "\x1b[1;2;3R", "\x1b[?1;2R", ""}
+
+var da1s = []string{"\x1b[?62;4;22c", "\x1b[?62;22c", "\x1b[?4c", "\x1b[?c", "\x1b[?1;2;4;4c", "\x1b[?64;1;2;6;9;15;18;21;22c", "\x1b[?62:4;4:1c"}
+
+func pickStream(rng *gen.Rng, n int, small bool) string {
+	var sb strings.Builder
+	for i := 0; i < n; i++ {
+		switch {
+		case !small && rng.Chance(1, 10):
+			sb.WriteString(gen.Pick(rng, vocab176))
+		case rng.Chance(1, 25):
+			sb.WriteString(gen.Pick(rng, cprs)) // a stray cursor report / Shift+F3
+		case rng.Chance(1, 40):
+			sb.WriteString(gen.Pick(rng, da1s)) // an early (unsolicited) DA1
+		default:
+			v := gen.Pick(rng, vocab)
+			sb.WriteString(v)
+			if rng.Chance(1, 8) {
+				sb.WriteString(v) // repeated
+			}
+		}
+	}
+	return sb.String()
+}
+
+func startCase(r *hx.Run, rng *gen.Rng) error {
+	dk, ct := rng.Chance(1, 6), rng.Chance(1, 6)
+	q := 0
+	if rng.Chance(1, 10) {
+		q = rng.Range(1, 6)
+	}
+	s1 := pickStream(rng, rng.Range(0, 6), q != 0)
+	cpr := cprs[0]
+	switch {
+	case rng.Chance(1, 20):
+		cpr = "" // never answered: the probe times out
+	case rng.Chance(1, 2):
+		cpr = gen.Pick(rng, cprs[:7])
+	}
+	s2 := pickStream(rng, rng.Range(0, 16), q != 0)
+	da1 := gen.Pick(rng, da1s)
+	s3 := pickStream(rng, rng.Range(0, 3), q != 0)
+	return startRun(r, dk, ct, q, s1+cpr, s2+da1+s3)
+}
+
+func startRun(r *hx.Run, dk, ct bool, q int, chunk1, chunk2 string) error {
+	fc := fakeconsole.New(10, 4, fakeconsole.Caps{CursorStyle: -1})
+	sent1, sent2 := false, false
+	fc.Respond = func(c *fakeconsole.Console, written []byte) []byte {
+		w := string(written)
+		var out string
+		if !sent1 && strings.Contains(w, "\x1b[6n") {
+			sent1 = true
+			out += chunk1
+		}
+		if strings.Contains(w, "\x1b[c") {
+			if !sent2 {
+				sent2 = true
+				out += chunk2
+			} else {
+				out += "\x1b[?62c" // Close/Suspend wake the reader with a DA1 query
+			}
+		}
+		return []byte(out)
+	}
+	if ct {
+		os.Setenv("COLORTERM", "truecolor")
+		defer os.Unsetenv("COLORTERM")
+	}
+	vx, err := vaxis.New(vaxis.Options{WithConsole: fc, NoSignals: true, DisableKittyKeyboard: dk, EventQueueSize: q})
+	if err != nil {
+		return err
+	}
+	stop := make(chan struct{})
+	go func() { // keep the queue moving so that Close never waits on a blocked input goroutine
+		for {
+			select {
+			case <-vx.Events():
+			case <-stop:
+				return
+			}
+		}
+	}()
+	snap := vx.VerifC03Snapshot()
+	var bits strings.Builder
+	for _, b := range snap.Caps {
+		bits.WriteByte(b01(b))
+	}
+	can := string([]byte{b01(vx.CanRGB()), b01(vx.CanKittyGraphics()), b01(vx.CanSixel()), b01(vx.CanReportColor()),
+		b01(vx.CanReportForegroundColor()), b01(vx.CanReportBackgroundColor()), b01(vx.CanDisplayGraphics()), b01(vx.CanSetAppID()),
+		b01(vx.CanUnicodeCore()), b01(vx.CanExplicitWidth())})
+	tid := inp.Cps([]rune(vx.TerminalID()))
+	done := make(chan struct{})
+	go func() { defer func() { recover() }(); vx.Close(); close(done) }()
+	select {
+	case <-done:
+	case <-time.After(3 * time.Second):
+		r.Count("start-close-hang")
+	}
+	close(stop)
+	// the second chunk is sent when the DA1 query is written, i.e. after CursorPosition has returned:
+	// `tmo` marks the point where an unanswered probe has timed out
+	var encs []string
+	for _, sq := range inp.RefParse([]byte(chunk1)) {
+		encs = append(encs, inp.EncSeq(sq))
+	}
+	encs = append(encs, "tmo")
+	for _, sq := range inp.RefParse([]byte(chunk2)) {
+		encs = append(encs, inp.EncSeq(sq))
+	}
+	r.Emit(fmt.Sprintf("start dk=%c ct=%c q=%d @ %s", b01(dk), b01(ct), q, strings.Join(encs, " | ")), bits.String()+" "+can+" tid="+tid)
+	r.Count("start")
+	if q != 0 {
+		r.Count("start-small-queue")
+	}
+	return nil
+}
+
 func run(r *hx.Run) error {
 	for _, k := range []string{"COLORTERM", "VAXIS_FORCE_LEGACY_SGR", "VAXIS_FORCE_WCWIDTH", "VAXIS_FORCE_UNICODE", "VAXIS_FORCE_NOZWJ", "VAXIS_DISABLE_NOZWJ", "VAXIS_FORCE_XTWINOPS", "VAXIS_GRAPHICS", "ASCIINEMA_REC"} {
 		os.Unsetenv(k)
@@ -100,6 +245,28 @@ func run(r *hx.Run) error {
 			if err := one(r, adv, ic, ""); err != nil {
 				return err
 			}
+		}
+	}
+	// start-up replay (reply streams through the real New, compared with the start-up LTS and judged by specCaps)
+	ns := 700
+	if r.Thorough {
+		ns = 12000
+	}
+	srng := rng.Fork(77)
+	// fixed: everything advertised once, in the order a real terminal answers; the same with the probe unanswered
+	full := "\x1b[?2026;2$y\x1b[?2027;2$y\x1b[?2031;2$y\x1b[48;4;10;80;100t\x1bP>|kitty 0.31\x1b\\\x1b[?0u\x1b_Gi=1;OK\x1b\\\x1b[?2;0;800;600S\x1b[4;80;100t\x1b[8;4;10t"
+	rest := "\x1bP1+r524742=38\x1b\\\x1b]4;1;rgb:ffff/0000/0000\x1b\\\x1b]10;rgb:1/2/3\x1b\\\x1b]11;rgb:0/0/0\x1b\\\x1b]176;app\x1b\\\x1bP1+r536D756C78=5C45\x1b\\\x1bP!|7E565445\x1b\\\x1b[?62;4;22c"
+	for _, c := range []string{"\x1b[1;2R", "\x1b[1;1R", ""} {
+		if err := startRun(r, false, false, 0, full+c, rest); err != nil {
+			return err
+		}
+	}
+	if err := startRun(r, true, true, 0, "\x1b[1;2R", "\x1b[?0u\x1b[?62c\x1b[?2026;2$y"); err != nil {
+		return err
+	}
+	for i := 0; i < ns; i++ {
+		if err := startCase(r, srng.Fork(uint64(i))); err != nil {
+			return err
 		}
 	}
 	n := 3000
